@@ -260,7 +260,7 @@ impl Sess {
                 let end_tokens = 0;
                 let submitted_tokens = if k == "submit" { verif::tokenize(&text, 0).0.len() } else { 0 };
                 json!({"c": call, "dom": dom, "panic": false, "res": res, "out": outs, "snap": snap_json(&snap),
-                       "edit": edit, "caret_ok": caret_ok, "caret": caret,
+                       "edit": edit, "caret_ok": caret_ok, "caret": caret.iter().map(|l| bytes(l)).collect::<Vec<_>>(),
                        "work": {"reads": snap.token_reads.saturating_sub(before.token_reads), "line_tokens": line_tokens.max(end_tokens).max(submitted_tokens),
                                 "functions": has_functions || !snap.functions.is_empty()}})
             }
@@ -335,6 +335,9 @@ pub fn diff(pred: &J, obs: &J) -> Vec<String> {
                 d.push("out.text".to_string());
             }
         }
+    }
+    if pred["caret"]["ok"] == true && obs["res"]["ok"] == false && pred["caret"]["lines"] != obs["caret"] {
+        d.push("caret".to_string());
     }
     if let (Some(ps), Some(os)) = (pred["snap"].as_object(), obs["snap"].as_object()) {
         for (k, mv) in ps {
